@@ -647,7 +647,64 @@ struct RenderNode {
     style: ComputedStyle,
 }
 
+impl RenderNodeInfo {
+    /// Move this node's child nodes (if any) into `out`, leaving it childless.
+    fn take_children(&mut self, out: &mut Vec<RenderNode>) {
+        use RenderNodeInfo::*;
+        fn take_rows(rows: &mut [RenderTableRow], out: &mut Vec<RenderNode>) {
+            for row in rows {
+                for cell in &mut row.cells {
+                    out.append(&mut cell.content);
+                }
+            }
+        }
+        match self {
+            Text(_) | Img(_, _) | Break | FragStart(_) => {}
+            Container(v)
+            | Link(_, v)
+            | Em(v)
+            | Strong(v)
+            | Strikeout(v)
+            | Code(v)
+            | Block(v)
+            | Header(_, v)
+            | Div(v)
+            | BlockQuote(v)
+            | Ul(v)
+            | Ol(_, v)
+            | Dl(v)
+            | Dt(v)
+            | Dd(v)
+            | ListItem(v)
+            | Sup(v) => out.append(v),
+            Table(table) => take_rows(&mut table.rows, out),
+            TableBody(rows) => take_rows(rows, out),
+            TableRow(row, _) => take_rows(std::slice::from_mut(row), out),
+            TableCell(cell) => out.append(&mut cell.content),
+        }
+    }
+}
+
+/// A render tree is as deep as the document is nested, so the default
+/// (recursive) drop could overflow the stack when a deeply nested tree is
+/// dropped without having been rendered, for example after `TooNarrow`.
+/// Dismantle it iteratively instead.
+impl Drop for RenderNode {
+    fn drop(&mut self) {
+        let mut pending = Vec::new();
+        self.info.take_children(&mut pending);
+        while let Some(mut node) = pending.pop() {
+            node.info.take_children(&mut pending);
+        }
+    }
+}
+
 impl RenderNode {
+    /// Take the node-specific information out of the node.
+    fn take_info(&mut self) -> RenderNodeInfo {
+        std::mem::replace(&mut self.info, RenderNodeInfo::Break)
+    }
+
     /// Create a node from the RenderNodeInfo.
     fn new(info: RenderNodeInfo) -> RenderNode {
         RenderNode {
@@ -1043,8 +1100,8 @@ fn table_to_render_tree<'a, T: Write>(
 ) -> TreeMapResult<'a, HtmlContext, RenderInput, RenderNode> {
     pending(input, move |_, rowset| {
         let mut rows = vec![];
-        for bodynode in rowset {
-            if let RenderNodeInfo::TableBody(body) = bodynode.info {
+        for mut bodynode in rowset {
+            if let RenderNodeInfo::TableBody(body) = bodynode.take_info() {
                 rows.extend(body);
             } else {
                 html_trace!("Found in table: {:?}", bodynode.info);
@@ -1070,8 +1127,8 @@ fn tbody_to_render_tree<'a, T: Write>(
     pending_noempty(input, move |_, rowchildren| {
         let mut rows = rowchildren
             .into_iter()
-            .flat_map(|rownode| {
-                if let RenderNodeInfo::TableRow(row, _) = rownode.info {
+            .flat_map(|mut rownode| {
+                if let RenderNodeInfo::TableRow(row, _) = rownode.take_info() {
                     Some(row)
                 } else {
                     html_trace!("  [[tbody child: {:?}]]", rownode);
@@ -1123,8 +1180,8 @@ fn tr_to_render_tree<'a, T: Write>(
     pending(input, move |_, cellnodes| {
         let cells = cellnodes
             .into_iter()
-            .flat_map(|cellnode| {
-                if let RenderNodeInfo::TableCell(cell) = cellnode.info {
+            .flat_map(|mut cellnode| {
+                if let RenderNodeInfo::TableCell(cell) = cellnode.take_info() {
                     Some(cell)
                 } else {
                     html_trace!("  [[tr child: {:?}]]", cellnode);
@@ -1962,7 +2019,7 @@ impl PushedStyleInfo {
 
 fn do_render_node<T: Write, D: TextDecorator>(
     renderer: &mut TextRenderer<D>,
-    tree: RenderNode,
+    mut tree: RenderNode,
     err_out: &mut T,
 ) -> render::Result<TreeMapResult<'static, TextRenderer<D>, RenderNode, Option<SubRenderer<D>>>> {
     html_trace!("do_render_node({:?}", tree);
@@ -1973,7 +2030,7 @@ fn do_render_node<T: Write, D: TextDecorator>(
 
     let pushed_style = PushedStyleInfo::apply(renderer, &tree.style);
 
-    Ok(match tree.info {
+    Ok(match tree.take_info() {
         Text(ref tstr) => {
             renderer.add_inline_text(tstr)?;
             pushed_style.unwind(renderer);
